@@ -4,8 +4,20 @@ package server
 
 import (
 	"github.com/nalgeon/redka"
+	"github.com/nalgeon/redka/internal/redis"
 	"github.com/tidwall/redcon"
 )
 
 // VerifHandlers exposes the server's handler chain to the verification harness.
 func VerifHandlers(db *redka.DB) redcon.HandlerFunc { return createHandlers(db) }
+
+// VerifConnState exposes a connection's MULTI state (the connState kept in the connection
+// context): the inMulti flag and a copy of the queued commands. A connection that has not been
+// seen by the handlers yet has the zero state.
+func VerifConnState(conn redcon.Conn) (inMulti bool, cmds []redis.Cmd) {
+	st, ok := conn.Context().(*connState)
+	if !ok || st == nil {
+		return false, nil
+	}
+	return st.inMulti, append([]redis.Cmd(nil), st.cmds...)
+}
